@@ -145,4 +145,7 @@ var Corpus = []CorpusCase{
 	{"F13-wipe-island-stop", 64, []Op{A(1, 2, 3), A(7), D(1, 4), R(), A(8)}},
 	{"F14-head-delete-stale-tail-key", 2, []Op{A(5, 6), A(2, 3), A(4), D(4, 7), O()}},
 	{"F14-tail-delete-stale-head-key", 2, []Op{A(1, 2), A(4, 5), A(3), D(1, 4), O()}},
+	{"F11-head-delete-crash", 4, []Op{A(1, 2, 3, 4, 5, 6, 7, 8, 9, 10), D(5, 11)}},
+	{"F15-stop-right-after-append", 64, []Op{A(1), A(2, 3, 4, 5, 6, 7, 8, 9, 10), O(), A(11)}},
+	{"F18-delete-persists-pointers-over-unflushed-headers", 3, []Op{A(1, 2, 3), A(6, 7, 8), A(4), A(5), D(1, 2)}},
 }
